@@ -38,6 +38,11 @@ MODELS = {
     "srv_cap": ("MC_Server.tla", "MC_Server_cap.cfg", 3600, ["refused", "fd_reused", "closed_with_inflight", "error_400"]),
     # liveness under weak fairness: everything sent is answered, received, and the system rests
     "srv_live": ("MC_Server.tla", "MC_Server_live.cfg", 1200, ["interim_sent", "pipelined_yield"]),
+    # write side: every interleaving of <= 4 enqueues with every stream outcome per write
+    "mc_write": ("MC_Write.tla", "MC_Write.cfg", 600, ["short_write", "two_in_flight", "failure_with_queue", "invalid_write", "all_written"]),
+    # algebraic facts of the function-level operators on enumerated domains
+    "mc_fn_quick": ("MC_Fn.tla", "MC_Fn_quick.cfg", 1800, ["oneshot_accepts", "conn_one_clean", "hdr_fatal", "hdr_lastwins", "abs_uri", "route_dup", "route_hit"]),
+    "mc_fn": ("MC_Fn.tla", "MC_Fn_thorough.cfg", 3600, ["oneshot_accepts", "conn_one_clean", "hdr_fatal", "hdr_lastwins", "abs_uri", "route_dup", "route_hit"]),
     # descriptors arriving with reads (C12)
     "conn_files": ("MC_Conn.tla", "MC_Conn_files.cfg", 1800, ["files_delivered", "body_delivered", "pipelined"]),
 }
@@ -208,7 +213,7 @@ def evidence_from_trace(pid, traces):
                 distinct.add(h)
     return evals, len(distinct), samples
 
-def conn_property(pid, tier, seed, models, drivers, assumptions, design_ref, extra_fn=()):
+def conn_property(pid, tier, seed, models, drivers, assumptions, design_ref, extra_fn=(), extra_srv=()):
     t0 = time.time()
     known = [k for k in V.load_known() if k["property"] == pid]
     violations, known_hits, oop = [], [], 0
@@ -273,13 +278,30 @@ def conn_property(pid, tier, seed, models, drivers, assumptions, design_ref, ext
         for c in fr["crashes"]:
             sig = "fn|%s|crash" % c["case"].get("e")
             violations.append((sig, V.save_replay(pid, {"property": pid, "level": "fn", "case": c["case"], "signature": sig, "mismatch": {"crash": c["rc"]}})))
+    sres = []
+    for i, (kind, domain, nq, nt) in enumerate(extra_srv):
+        sr = srv_conformance(pid, tier, seed, kind, domain, nq if tier == "quick" else nt, "%s-srv-%s-%d" % (pid, kind, i))
+        sres.append(sr)
+        bad = {m["hist"]: m for m in sr["mismatches"] if "hist" in m}
+        for hid, evs in hist_events(sr["trace"]):
+            evals += 1
+            distinct += 1
+            if hid in bad:
+                m = bad[hid]
+                sig = "srv|%s|%s|%s" % (sr["kind"], sr["domain"], m.get("kind", "?"))
+                if re.search(SRV_PROJ[pid], m.get("kind", "?")):
+                    violations.append((sig, V.save_replay(pid, {"property": pid, "level": "srv", "build": sr["kind"], "domain": sr["domain"],
+                                                               "signature": sig, "steps": [dict(e) for e in evs], "mismatch": m})))
+                else:
+                    oop += 1
     cov = {
-        "states": sum(r["distinct"] for r in mres) + sum(c["states"] for c in cres),
-        "transitions": sum(r["states_generated"] for r in mres) + sum(c["events"] for c in cres),
+        "states": sum(r["distinct"] for r in mres) + sum(c["states"] for c in cres) + sum(s["states"] for s in sres),
+        "transitions": sum(r["states_generated"] for r in mres) + sum(c["events"] for c in cres) + sum(s["events"] for s in sres),
         "traces_validated_against_impl": evals,
         "samples": samples,
         "evaluations": evals,
         "distinct_nontrivial": distinct,
+        "server_histories": [{"build": s["kind"], "domain": s["domain"], "trace_events_validated": s["events"], "divergent_histories": len(s["mismatches"])} for s in sres],
         "rule": RULES[pid],
         "exhaustive": False,
         "models": [{"name": r["name"], "cfg": r["cfg"], "distinct_states": r["distinct"], "states_generated": r["states_generated"],
@@ -317,11 +339,14 @@ TABLE = {
     "C01": lambda tier, seed: conn_property("C01", tier, seed, conn_models(tier), [("small", "C01"), ("full", "C01")], CONN_ASSUME, "DESIGN.md 6 C01"),
     "C02": lambda tier, seed: conn_property("C02", tier, seed, conn_models(tier), [("full", "C02")], CONN_ASSUME, "DESIGN.md 6 C02"),
     "C03": lambda tier, seed: conn_property("C03", tier, seed, conn_models(tier), [("full", "C03"), ("small", "C03")], CONN_ASSUME, "DESIGN.md 6 C03", extra_fn=["C03"]),
-    "C04": lambda tier, seed: conn_property("C04", tier, seed, conn_models(tier), [("full", "C04"), ("small", "C04")], CONN_ASSUME, "DESIGN.md 6 C04"),
-    "C06": lambda tier, seed: conn_property("C06", tier, seed, [], [("full", "C06")], CONN_ASSUME, "DESIGN.md 6 C06"),
-    "C11": lambda tier, seed: conn_property("C11", tier, seed, conn_models(tier), [("full", "C11"), ("small", "C11")], CONN_ASSUME, "DESIGN.md 6 C11"),
+    "C04": lambda tier, seed: conn_property("C04", tier, seed, conn_models(tier), [("full", "C04"), ("small", "C04")], CONN_ASSUME, "DESIGN.md 6 C04",
+                                            extra_srv=[("full", "C04", 200, 2000)]),
+    "C06": lambda tier, seed: conn_property("C06", tier, seed, ["mc_write"], [("full", "C06")], CONN_ASSUME, "DESIGN.md 6 C06"),
+    "C11": lambda tier, seed: conn_property("C11", tier, seed, conn_models(tier), [("full", "C11"), ("small", "C11")], CONN_ASSUME, "DESIGN.md 6 C11",
+                                            extra_srv=[("full", "C09", 150, 1500)]),
     "C12": lambda tier, seed: conn_property("C12", tier, seed, ["conn_files"], [("full", "C12")], CONN_ASSUME, "DESIGN.md 6 C12"),
-    "C13": lambda tier, seed: conn_property("C13", tier, seed, conn_models(tier), [("full", "C13"), ("small", "C13")], CONN_ASSUME, "DESIGN.md 6 C13"),
+    "C13": lambda tier, seed: conn_property("C13", tier, seed, conn_models(tier), [("full", "C13"), ("small", "C13")], CONN_ASSUME, "DESIGN.md 6 C13",
+                                            extra_srv=[("full", "C08", 200, 2000)]),
 }
 
 # ---------------------------------------------------------------------------
@@ -344,12 +369,12 @@ CHECK_DEADLOCK FALSE
 SRV_PROJ = {
     "C07": r"^(bytes:|sweep:in-flight|token:|yield:)",
     "C08": r"^(ready:|batch:|pollerr:|apierr:|bytes:missing|bytes:differ|yield:|write:|invariant)",
-    "C09": r"^(pollerr:|apierr:|ready:|sweep:dead|fds:count|batch:)",
-    "C10": r"^(capacity:|fds:|sweep:dead|sweep:live|eof:|bytes:)",
-    "C18": r"^(kill:|ready:|pollerr:)",
-    "C04": r"^(bytes:)",
+    "C09": r"^(pollerr:|apierr:|ready:|sweep:dead|fds:count|batch:|yield:|bytes:missing)",
+    "C10": r"^(capacity:|fds:|sweep:|eof:|bytes:)",
+    "C18": r"^(kill:|ready:|pollerr:|batch:)",
+    "C04": r"^(bytes:|yield:)",
     "C11": r"^(bytes:|yield:)",
-    "C13": r"^(bytes:|yield:)",
+    "C13": r"^(bytes:|yield:|ready:stall)",
 }
 
 def hist_events(trace_path):
@@ -534,7 +559,7 @@ TABLE.update({
     "C09": lambda tier, seed: srv_property("C09", tier, seed, ["srv_quick", "srv_race", "srv_capq"] + (["srv_cap"] if tier == "thorough" else []), [("full", "C09", 300, 3000), ("small", "C09", 200, 2000), ("small", "C10", 200, 2000)], SRV_ASSUME, "DESIGN.md 6 C09"),
     "C10": lambda tier, seed: srv_property("C10", tier, seed, ["srv_capq"] + (["srv_cap"] if tier == "thorough" else []), [("small", "C10", 300, 3000), ("full", "C10", 150, 1500)], SRV_ASSUME, "DESIGN.md 6 C10"),
     "C18": lambda tier, seed: srv_property("C18", tier, seed, ["srv_kill"], [("full", "C18", 300, 3000), ("small", "C18", 200, 2000)], SRV_ASSUME, "DESIGN.md 6 C18"),
-    "C08": lambda tier, seed: srv_property("C08", tier, seed, ["srv_quick", "srv_progs", "srv_live"], [("full", "C08", 300, 3000), ("small", "C08", 200, 2000)], SRV_ASSUME, "DESIGN.md 6 C08"),
+    "C08": lambda tier, seed: srv_property("C08", tier, seed, ["srv_quick", "srv_progs", "srv_live"], [("full", "C08", 300, 3000), ("small", "C08", 200, 2000), ("full", "C08big", 24, 400)], SRV_ASSUME, "DESIGN.md 6 C08"),
 })
 
 # ---------------------------------------------------------------------------
@@ -715,10 +740,10 @@ FN_ASSUME = [
 ]
 TABLE.update({
     "C05": lambda tier, seed: fn_property("C05", tier, seed, [], ["C05"], FN_ASSUME, "DESIGN.md 6 C05"),
-    "C14": lambda tier, seed: fn_property("C14", tier, seed, [], ["C14"], FN_ASSUME, "DESIGN.md 6 C14"),
-    "C15": lambda tier, seed: fn_property("C15", tier, seed, [], ["C15"], FN_ASSUME, "DESIGN.md 6 C15"),
-    "C16": lambda tier, seed: fn_property("C16", tier, seed, [], ["C16"], FN_ASSUME, "DESIGN.md 6 C16"),
-    "C17": lambda tier, seed: fn_property("C17", tier, seed, [], ["C17"], FN_ASSUME, "DESIGN.md 6 C17"),
+    "C14": lambda tier, seed: fn_property("C14", tier, seed, ["mc_fn_quick" if tier == "quick" else "mc_fn"], ["C14"], FN_ASSUME, "DESIGN.md 6 C14"),
+    "C15": lambda tier, seed: fn_property("C15", tier, seed, ["mc_fn_quick" if tier == "quick" else "mc_fn"], ["C15"], FN_ASSUME, "DESIGN.md 6 C15"),
+    "C16": lambda tier, seed: fn_property("C16", tier, seed, ["mc_fn_quick" if tier == "quick" else "mc_fn"], ["C16"], FN_ASSUME, "DESIGN.md 6 C16"),
+    "C17": lambda tier, seed: fn_property("C17", tier, seed, ["mc_fn_quick" if tier == "quick" else "mc_fn"], ["C17"], FN_ASSUME, "DESIGN.md 6 C17"),
 })
 
 def run(pid, tier, seed):
